@@ -43,6 +43,10 @@ func (C09Mon) After(w *core.World, st *core.Step) {
 	if !pa.OnlyFlags("--staged") || len(pa.Pos) == 0 {
 		return
 	}
+	if st.Cwd != "" {
+		checkRestoreFromSubdir(w, st, pa.Pos, staged)
+		return
+	}
 	pre, post := st.Pre.Repo(), st.Post.Repo()
 	idx0, ok0 := pre.Idx()
 	if !ok0 || !pre.HeadOK {
@@ -245,6 +249,63 @@ func (C09Mon) After(w *core.World, st *core.Step) {
 	}
 }
 
+// checkRestoreFromSubdir: a session held in a sub-directory. Goit resolves path arguments and the paths it stages
+// against the current directory (DESIGN 10.5), so a file staged there as `lib/a.txt` lives at <cwd>/lib/a.txt, and
+// that is where `restore lib` issued from the same directory must bring it back -- nowhere else.
+func checkRestoreFromSubdir(w *core.World, st *core.Step, args []string, staged bool) {
+	if staged {
+		return
+	}
+	pre := st.Pre.Repo()
+	idx0, ok := pre.Idx()
+	if !ok {
+		return
+	}
+	sel := map[string]bool{}
+	for _, a := range args {
+		cp, okc := CleanArg(a)
+		if !okc || InGoit(cp) {
+			return
+		}
+		n := 0
+		for p := range idx0 {
+			if p == cp || Under(p, cp) {
+				sel[p] = true
+				n++
+			}
+		}
+		if n == 0 {
+			return // an unknown argument: the root-level oracle covers refusals
+		}
+	}
+	c := w.C
+	c.Oracle("C09.subdir-session")
+	c.Class("C09.subdir|n" + fmt.Sprint(min(len(sel), 4)))
+	trig := "cwd-in-subdirectory"
+	if st.Exit != 0 {
+		w.Fail("C09.subdir-session", "valid-restore-refused", trig, "%s names tracked paths only and exits %d: %s", st.String(), st.Exit, clipS(firstLine(st.Stdout+st.Stderr), 160))
+		return
+	}
+	wt1 := st.Post.WT()
+	want := map[string]bool{}
+	for p := range sel {
+		o, okb := pre.Obj(idx0[p])
+		if !okb {
+			continue
+		}
+		full := st.Cwd + "/" + p
+		want["w/"+full] = true
+		if b, there := wt1[full]; !there || !bytes.Equal(b, o.Body) {
+			w.Fail("C09.subdir-session", "selected-file-differs", trig, "after %s the file %q does not hold the staged bytes of %q (present: %v)", st.String(), full, p, there)
+		}
+	}
+	for _, d := range wtDiff(st.Pre, st.Post) {
+		if !want[d[1:]] {
+			w.Fail("C09.subdir-session", "other-file-changed", trig, "%s changed %s, which it did not name", st.String(), d)
+		}
+	}
+}
+
 func runC09(c *core.Ctx) {
 	n := c.Pick(500, 4000)
 	c.RunHistories(n, Registry["C09"].Mons, func(w *core.World) {
@@ -305,6 +366,35 @@ func runC09(c *core.Ctx) {
 				continue
 			}
 			k.Step()
+		}
+		if w.Hist%8 == 5 {
+			// a session held in a sub-directory: stage, commit, damage, restore -- all from there
+			sub := pickS(k.R, []string{"pkg", "work dir", "a/b"})
+			files := []string{"lib/a.txt", "lib/deep/b.txt", "lib/deep/c d.txt", "top.txt"}
+			for _, f := range files {
+				w.Write(sub+"/"+f, k.content())
+			}
+			w.GoitIn(sub, "add", "lib", "top.txt")
+			w.GoitIn(sub, "commit", "-m", "from a sub-directory")
+			switch k.R.IntN(3) {
+			case 0:
+				w.Edit("rmdir", sub+"/lib", nil)
+			case 1:
+				w.Edit("rm", sub+"/lib/deep/b.txt", nil)
+				w.Write(sub+"/lib/a.txt", []byte("changed\n"))
+			default:
+				w.Edit("rmdir", sub+"/lib/deep", nil)
+				w.Write(sub+"/top.txt", []byte("changed\n"))
+			}
+			w.Write(sub+"/untracked.txt", []byte("stays\n"))
+			switch k.R.IntN(3) {
+			case 0:
+				w.GoitIn(sub, "restore", "lib")
+			case 1:
+				w.GoitIn(sub, "restore", "lib/deep/b.txt", "lib/a.txt")
+			default:
+				w.GoitIn(sub, "restore", "lib/deep", "top.txt")
+			}
 		}
 	})
 }
